@@ -1000,6 +1000,30 @@ func init() {
 				cg = append(cg, patterns.FromText(t, 0, "shape:entry-codegen"))
 			}
 			us = append(us, stringUnits("C02", "entry", cg, cfgs[1:2], []string{"s", "b"}, mx, nil, nil)...)
+			// the regexp-style adapter against the Regexp it wraps (any options, not only RE2: that is C06):
+			// byte pairs of every group, -1 pairs, the find-all sequence and its truncation, on raw bytes
+			// (n <= 2, thorough 3) and on subjects of 4-5 bytes over a three-letter alphabet
+			for _, t := range []string{`(a)|b`, `(a)(b)?`, `(?<n>a)\k<n>`, `(?<=(a))b`, `a*`, `\b`, `(?:(a)|b)*c`, `(?<x>a)|(?<x>b)`, `(?<3>a)(b)?`, `[^a]+`, `(a)(?=(b))`, `(?i)a(B)?`, `.`, `\Ga`, `^|$`, `(é)?a`} {
+				for _, o := range []int{0, patterns.OptE, patterns.OptRE2} {
+					if o == patterns.OptE && (strings.Contains(t, "<3>") || strings.Contains(t, "(?<x>a)|")) || o == patterns.OptRE2 && strings.Contains(t, "(?<") {
+						continue
+					}
+					for n := 0; n <= 3; n++ {
+						if n == 3 && tier != "thorough" {
+							continue
+						}
+						us = append(us, Unit{ID: fmt.Sprintf("C02/adapter/%s/o%d/b%d", t, o, n), Pkg: "compat", Harness: "compatentry", Domain: "full",
+							Params: map[string]string{"pattern": t, "options": itoa(o), "copts": "", "n": itoa(n), "mode": "b", "key_extra": "adapter/b"}})
+					}
+					for _, n := range []int{4, 5, 6} {
+						if n == 6 && tier != "thorough" {
+							continue
+						}
+						us = append(us, Unit{ID: fmt.Sprintf("C02/adapter/%s/o%d/a%d", t, o, n), Pkg: "compat", Harness: "compatentry", Domain: "full",
+							Params: map[string]string{"pattern": t, "options": itoa(o), "copts": "", "n": itoa(n), "mode": "a", "alphabet": "abc", "key_extra": "adapter/a"}})
+					}
+				}
+			}
 			return us
 		},
 		Rule:      "For each (pattern, options, compile options, n): the subject is a string of n symbolic Unicode scalars (mode s) or n raw symbolic bytes incl. invalid UTF-8 (mode b); every feasible path through MatchString, MatchRunes, FindStringMatch, FindRunesMatch, the StartingAt variants, FindNextMatch iteration, FindAllRunesIndex, FindAllStringIndex (rune->byte mapping recomputed by the harness), ReplaceFunc's match enumeration and Split's piece count is explored and their agreement asserted.",
@@ -1308,7 +1332,7 @@ func init() {
 				{`(a)(?=(b))`, `.`}, {`ab|cd`, `(?<n>a)`}, {`(?<=(a))b`, `b`},
 			}
 			ops := []string{"ms", "mr", "fs", "fa", "rp", "rq", "rf", "sp"}
-			hists := []string{"ms", "fs", "rp", "sp", "lim", "b:fs", "b:rp", "ms,fs", "fs,ms", "rp,rq", "mr,sp", "lim,fs", "b:ms,ms", "fa,rf", "rf,fa"}
+			hists := []string{"ms", "fs", "rp", "sp", "lim", "b:fs", "b:rp", "ms,fs", "fs,ms", "rp,rq", "mr,sp", "lim,fs", "b:ms,ms", "fa,rf", "rf,fa", "r17", "rq,r17"}
 			n, hn := 2, 1
 			if tier == "thorough" {
 				n, hn = 2, 2
@@ -1364,7 +1388,7 @@ func init() {
 			return us
 		},
 		Rule: "For each (pattern pair, final call, history): (1) histories of <= 2 earlier calls (bool, find+iterate, find-all, Replace with two replacement patterns, ReplaceFunc, Split, a match that hits the stack limit, calls on another Regexp sharing the global pools) on symbolic texts, the modelled sync.Pool always handing back the most recently returned runner/buffer; (2) one inductive step: after a call the pooled runner's stacks, crawl, positions, code position and retained match arrays are replaced by fresh solver variables (havoc) under the representation invariant; then the final call on a symbolic text; on every feasible path its result equals the same call on a never-used Regexp compiled from the same pattern.",
-		Witnesses: []string{"havoc", "havoc-runmatch", "history-hit-limit", "history-hit-own-limit", "end"},
+		Witnesses: []string{"havoc", "havoc-runmatch", "history-hit-limit", "history-hit-own-limit", "history-cache-overflow", "end"},
 	})
 }
 
